@@ -2,7 +2,7 @@
 Correspondence + falsifier: tools/layout_engine.py."""
 import layout_engine
 
-GEN_UNITS = ['Encoders', 'Criteria', 'Sizes', 'PassTable', 'Book']
+GEN_UNITS = ['Encoders', 'Criteria', 'Sizes', 'PassTable', 'Book', 'Effects']
 ASSUMPTIONS = ['programs with unique label names and align N >= 1 (the quantifier of the property)']
 
 
